@@ -57,6 +57,11 @@ Effects(o) ==
        [] o.op = "url"    -> {[rs |-> rs, rep |-> [res |-> "ok", url |-> URLResult(R0, o.strict, o.pat, o.params, TRUE)]]}
        [] o.op = "serve"  -> {[rs |-> rs, rep |-> [res |-> "ok", outs |-> ServeOutcomes(R0, o.method, o.path), R |-> R0,
                                                    canon |-> R0.addOnly \/ WitValid(R0, o.wit, o.wps, o.path)]]}
+       \* a quiescent group (routers g?a: Hosts a.com, g?b: path version v1): the reply is fixed by the request alone
+       [] o.op = "gserve" -> {[rs |-> rs, rep |-> [res |-> "ok",
+                                 want |-> IF o.host = "a.com" THEN [rname |-> o.inst \o "a", urlPath |-> o.path]
+                                          ELSE IF HasPrefix(o.path, "/v1/") THEN [rname |-> o.inst \o "b", urlPath |-> Drop(o.path, 3)]
+                                          ELSE [rname |-> "", urlPath |-> o.path]]]}
        [] o.op = "hadd"   -> LET d == Lower(o.domains[1]) IN
                              {[rs |-> IF v = "ok" THEN Put(rs, n, DoHandle(R0, d, "d", <<>>, <<"GET">>)) ELSE rs, rep |-> [res |-> v]]
                                : v \in HandleVerdicts(R0, d, <<"GET">>, TRUE)}
@@ -80,6 +85,10 @@ Matches(o, rep, r) ==
                                                                  /\ x.h = r.r.h /\ x.pat = r.r.pat /\ x.params = r.r.params
                                                                  /\ (x.kind = "rootopt" => RootAllowOK(rep.R, ToSet(r.r.allowH)))
                                                                  /\ (x.kind \in {"opt", "405"} => ToSet(r.r.allowH) = AllowSet(rep.R, x.pat))
+       [] o.op = "gserve" -> /\ r.r.panic = "none" /\ r.r.rname = rep.want.rname /\ r.r.urlPath = rep.want.urlPath
+                             /\ (rep.want.rname = "" => r.r.kind = "gnf")
+                             /\ (rep.want.rname # "" => (r.r.kind = "route" /\ r.r.h = rep.want.rname \o ":" \o (IF rep.want.urlPath = "/x" THEN "/x" ELSE "/{rest}")
+                                                          /\ (rep.want.urlPath # "/x" => "rest" \in DOMAIN r.r.params /\ r.r.params["rest"] = Drop(rep.want.urlPath, 1))))
        [] o.op = "hmatch" -> rep.canon => (r.ok = rep.hm.ok /\ (r.ok => \E x \in rep.hm.outs : x[2] = r.params))
        [] OTHER -> TRUE
 
